@@ -71,6 +71,17 @@ func runC03(c *Ctx) {
 	c.NotCovered("strength of Ed25519 / BLAKE2b", "acceptance of the untampered transaction (an inventory cannot prove no other guard rejects)", "soft-fork rule for unknown key algorithms is accepted by the property")
 	ge := NewGuardEngine(c.P, c.Depth+4)
 	tab := c03Table()
+	// an ephemeral parent's claimed address is what the spend policy is hashed against: from the fix height on it
+	// must be the address the element was created with (compared as part of the whole output or on its own)
+	{
+		esce := "%MS%.sces[%MS%.elements[%T2%.SiacoinInputs[*].Parent.ID]].SiacoinElement"
+		r := req("v2-ephemeral-address", V2T, "%T2%.SiacoinInputs[*].Parent.SiacoinOutput", opNE, esce+".SiacoinOutput", "the address claimed for a parent created earlier in the block must be the one it was created with (the policy is checked against the claimed address)", ctxEphemeral, "%CH% >= %NET%.HardforkV2.EphemeralOutputHeight")
+		lS, rS := mustRe(r.L), mustRe(r.R)
+		lA, rA := mustRe(pat("%T2%.SiacoinInputs[*].Parent.SiacoinOutput.Address")), mustRe(pat(esce+".SiacoinOutput.Address"))
+		r.LFn = func(a string) bool { return lS.MatchString(a) || lA.MatchString(a) }
+		r.RFn = func(a string) bool { return rS.MatchString(a) || rA.MatchString(a) }
+		tab = append(tab, r)
+	}
 	runGuardTable(c, "auth-guard", ge, tab)
 	c03FoundationSigned(c, ge)
 	c03AllSupplied(c, ge)
